@@ -12,7 +12,7 @@ import (
 
 func init() {
 	register("C13",
-		"Structural necessary conditions of C13 decided from /repo's SSA: (spawn) every process is started through (*Repository).GitCommand except the one rev-parse --git-dir discovery call; (isolation) GitCommand puts --no-replace-objects before the caller's arguments and sets cmd.Env = os.Environ() + GIT_DIR=<repo.gitDir> + GIT_GRAFT_FILE=<os.DevNull> with nothing after them, and nobody else rewrites an exec.Cmd's Env/Args/Path/Dir; (shallow) every non-nil *Repository returned by a constructor is dominated by the IsFull()==true, err==nil edges and IsFull tests the path `rev-parse --git-path shallow`; (gitdir) the gitDir field is written only at construction. Not decided: equality of reports across addressing modes, git's own handling of these flags.",
+		"Structural necessary conditions of C13 decided from /repo's SSA: (spawn) every process is started through (*Repository).GitCommand except the one rev-parse --git-dir discovery call; (isolation) GitCommand puts --no-replace-objects before the caller's arguments and sets cmd.Env = os.Environ() + GIT_DIR=<repo.gitDir> + GIT_GRAFT_FILE=<os.DevNull> with nothing after them, and nobody else rewrites an exec.Cmd's Env/Args/Path/Dir; (shallow) every non-nil *Repository returned by a constructor is dominated by the IsFull()==true, err==nil edges and IsFull tests the path `rev-parse --git-path shallow`; (gitdir) the gitDir field is written only at construction and, on every path, with a value derived from the standard output of `git -C <path> rev-parse --git-dir` (no shortcut that guesses the directory). Not decided: equality of reports across addressing modes, git's own handling of these flags.",
 		[]string{"git honours --no-replace-objects, GIT_GRAFT_FILE and GIT_DIR as documented", "os/exec passes Env and Args unchanged to the child", "later duplicates in Env win (os/exec dedupEnv)"},
 		ruleC13Spawn, ruleC13Isolation, ruleC13Shallow, ruleC13GitDir)
 }
@@ -268,6 +268,23 @@ func envVarName(e ssa.Value) (string, bool) {
 
 // isLoadOfRecvField: v is a load of a field of f's receiver (first param).
 func (c *Ctx) isLoadOfRecvField(v ssa.Value, f *ssa.Function) bool {
+	// a getter of the receiver: repo.GitDir() whose every return is a field of its receiver
+	if call, ok := c.resolve(v).(*ssa.Call); ok && len(f.Params) > 0 {
+		g := call.Call.StaticCallee()
+		if g != nil && c.inRuleScope(g) && len(g.Blocks) > 0 && len(call.Call.Args) == 1 && c.resolve(call.Call.Args[0]) == ssa.Value(f.Params[0]) {
+			rets := returnsOf(g)
+			if len(rets) == 0 {
+				return false
+			}
+			for _, r := range rets {
+				if len(r.Results) != 1 || !c.isLoadOfRecvField(r.Results[0], g) {
+					return false
+				}
+			}
+			return true
+		}
+		return false
+	}
 	u, ok := c.resolve(v).(*ssa.UnOp)
 	if !ok || u.Op != token.MUL {
 		return false
@@ -582,7 +599,18 @@ func ruleC13GitDir(c *Ctx) {
 			return
 		}
 		if s, ok := constStr(bo.X); ok && s == "GIT_DIR=" {
-			if u, ok := c.resolve(bo.Y).(*ssa.UnOp); ok {
+			y := c.resolve(bo.Y)
+			if call, ok := y.(*ssa.Call); ok {
+				// through a getter of the receiver
+				if g := call.Call.StaticCallee(); g != nil && c.inRuleScope(g) {
+					for _, r := range returnsOf(g) {
+						if len(r.Results) == 1 {
+							y = c.resolve(r.Results[0])
+						}
+					}
+				}
+			}
+			if u, ok := y.(*ssa.UnOp); ok {
 				if fa, ok := u.X.(*ssa.FieldAddr); ok {
 					dirField = fieldOfAddr(fa).Var
 				}
@@ -665,6 +693,15 @@ func (c *Ctx) fromDiscovery(v ssa.Value, depth int) (bool, string) {
 		for _, a := range x.Call.Args {
 			if ok, _ := c.fromDiscovery(a, depth+1); ok {
 				return true, ""
+			}
+			// the elements of a variadic argument list
+			for _, el := range c.sliceElemValues(a) {
+				if el == nil {
+					continue
+				}
+				if ok, _ := c.fromDiscovery(el, depth+1); ok {
+					return true, ""
+				}
 			}
 		}
 		return false, "computed by " + calleeQ(&x.Call) + " from values that are not git's answer"
